@@ -90,6 +90,32 @@ def pick(cx):
     cx.check(ok, "empty", "the empty configuration yields (u64::MAX, true)")
 
 
+@obligation("QUORUM.membership", ["C10", "C09", "C17", "C11"], floor=2, kind="return shape",
+            why="a voter of the outgoing half of a joint configuration is still a voter: it must be allowed to campaign and to receive a leadership transfer, and its id belongs to the voter ids")
+def membership(cx):
+    f = cx.fn("joint::Configuration::contains")
+    rets = cx.pg(f).returns()
+    halves = set()
+    ok = bool(rets)
+    for lits, v, _ in rets:
+        for x in [l[1] for l in lits if l[0] == "is"] + [v]:
+            if x[0] == "call" and x[1].endswith("::contains"):
+                for h in ("incoming", "outgoing"):
+                    if any(y[0] == "field" and y[2] == "Configuration." + h for y in walk(x)):
+                        halves.add(h)
+        if v == ("bool", True):
+            ok = ok and any(l[0] == "is" and l[2] is True and l[1][0] == "call" and l[1][1].endswith("::contains") for l in lits)
+        elif v == ("bool", False):
+            ok = ok and sum(1 for l in lits if l[0] == "is" and l[2] is False and l[1][0] == "call" and l[1][1].endswith("::contains")) >= 2
+        else:
+            ok = ok and v[0] == "call" and v[1].endswith("::contains") and any(l[0] == "is" and l[2] is False for l in lits)
+    cx.check(ok and halves == {"incoming", "outgoing"}, "contains", "JointConfig::contains(id) = incoming.contains(id) || outgoing.contains(id) (halves consulted: %s)" % sorted(halves))
+    f = cx.fn("joint::Configuration::ids")
+    rets = cx.pg(f).returns()
+    ok = len(rets) == 1 and all(any(y[0] == "field" and y[2] == "Configuration." + h for y in walk(rets[0][1])) for h in ("incoming", "outgoing"))
+    cx.check(ok, "ids", "JointConfig::ids() ranges over both halves (found %s)" % (show(rets[0][1])[:100] if rets else None))
+
+
 @obligation("QUORUM.gather", ["C04", "C11"], floor=4, kind="collection shape (origin + one element per voter)",
             why="ranking a buffer that holds anything but exactly one acknowledged index per voter picks the wrong quorum index")
 def gather(cx):
